@@ -187,7 +187,7 @@ func renderSlots(toks []gen.Tok, slots []c07slot, inline bool, emptyTok int) str
 			txt = "$"
 		} else if !inline {
 			txt = "$" + s.name
-			if strings.ContainsAny(s.name, " ") {
+			if strings.ContainsAny(s.name, " $") {
 				txt = `$"` + s.name + `"`
 			}
 		}
@@ -280,6 +280,13 @@ func c07One(c *Ctx, idx int, local map[string]int64) {
 		s.name = fmt.Sprintf("p%d", k)
 		if rg.P(0.15) {
 			s.name = fmt.Sprintf("p q%d", k)
+		} else if rg.P(0.1) {
+			// a name that itself begins with the sigil (only the quoted form can
+			// spell it); the name without it is bound too, to something else
+			s.name = fmt.Sprintf("$p%d", k)
+			params[fmt.Sprintf("p%d", k)] = "decoy under the stripped name"
+			params[fmt.Sprintf("$$p%d", k)] = int64(-77)
+			local["sigil-in-name"]++
 		}
 		params[s.name] = s.value
 		slots = append(slots, s)
@@ -406,6 +413,26 @@ func c07One(c *Ctx, idx int, local map[string]int64) {
 	if pan2 {
 		r.Violation("panic", map[string]interface{}{"idx": idx, "input": tmpl2, "params": fmt.Sprintf("%#v", bad), "why": fmt.Sprint(pv2), "stack": stk2})
 		return
+	}
+	if err2 != nil && variant != 2 {
+		// the other entry point: a statement whose placeholder cannot be
+		// resolved is not a statement, whatever follows it
+		var st5 influxql.Statement
+		var err5 error
+		if p5, pv5, stk5 := mon.Try(func() {
+			p := influxql.NewParser(strings.NewReader(tmpl2))
+			p.SetParams(bad)
+			st5, err5 = p.ParseStatement()
+		}); p5 {
+			r.Violation("panic", map[string]interface{}{"idx": idx, "input": tmpl2, "params": fmt.Sprintf("%#v", bad), "why": fmt.Sprint(pv5), "stack": stk5})
+			return
+		}
+		r.Eval(1)
+		if err5 == nil {
+			r.Violation("unbound-or-unbindable-accepted", map[string]interface{}{"idx": idx, "input": tmpl2, "params": fmt.Sprintf("%#v", bad), "why": fmt.Sprintf("variant %d is rejected by ParseQuery (%v) but Parser.ParseStatement accepts it as %s", variant, err2, trunc(st5.String(), 200))})
+			return
+		}
+		local["must-error.ParseStatement"]++
 	}
 	if err2 != nil {
 		// whatever text the failure carries is not a parameter name: binding
